@@ -1365,6 +1365,40 @@ def check_wait_sent(ctx):
                     exits.append(node)
         ctx.decide('SENT', wrk.func, 'worker leaves its loop on the '
                    'sentinel', bool(exits), at=wrk.func.where(wrk.loop))
+        # Q-BALANCE: the queue that the master joins lives as long as the
+        # backend (created in its __init__): every item taken from it must
+        # be acknowledged, the sentinels too, or the NEXT scheduling call on
+        # the same backend blocks for ever in queue.join()
+        long_lived = None
+        backend_cls = func.cls
+        if backend_cls is not None:
+            init = backend_cls.methods.get('__init__')
+            in_init = init is not None and any(
+                isinstance(n, ast.Assign) and any(
+                    txt(t) == 'self.queue' for t in n.targets)
+                for n in ast.walk(init.node))
+            in_call = any(isinstance(n, ast.Assign) and any(
+                txt(t) in ('self.queue', 'queue') for t in n.targets) and
+                          isinstance(n.value, ast.Call) and 'Queue' in txt(
+                              n.value.func)
+                          for n in ast.walk(func.node))
+            long_lived = in_init and not in_call
+        for node in exits:
+            acked = any(isinstance(c, ast.Call) and call_name(c) ==
+                        'task_done' for s in node.body for c in ast.walk(s))
+            ctx.decide('SENT', wrk.func,
+                       'the sentinel is acknowledged (task_done) before the '
+                       'worker leaves'
+                       if long_lived else 'sentinel path (queue created per '
+                       'call: no acknowledgement needed)',
+                       True if acked or long_lived is False else
+                       False if long_lived else None,
+                       at=wrk.func.where(node),
+                       detail='the queue belongs to the backend object and '
+                              'is joined by every scheduling call: n_workers '
+                              'unacknowledged sentinels make the next '
+                              'queue.join() block for ever'
+                       if long_lived and not acked else None)
         # notifications in the worker are under the condition variable
         for call in calls_in(wrk.func.node):
             if call_name(call) in ('notify', 'notify_all'):
